@@ -98,7 +98,7 @@ def gen_cases(tier, seed):
                 cases.append({"id": "%s-%s-%s" % (site, pos, mode), "sig": [site, "-", pos, mode], "site": site, "pos": pos, "mode": mode, "kind": "decrypt", "msg": "-"})
     # a decryption that fails at one invocation and works at a later one: what comes out of the ciphertext still needs its signature checked
     for site in ("decrypt-then-verify-assertion", "decrypt-then-verify-assertion-second-key-right", "decrypt-then-verify-several-encrypted"):
-        for msg in ("valid", "tampered"):
+        for msg in ("valid", "tampered") + (("tampered-same-id",) if site.endswith("several-encrypted") else ()):
             for pos in POSITIONS:
                 for mode in NORESULT_MODES + DAMAGE_MODES:
                     cases.append({"id": "%s-%s-%s-%s" % (site, msg, pos, mode), "sig": [site, msg, pos, mode], "site": site, "pos": pos, "mode": mode, "kind": "decrypt", "msg": msg})
@@ -409,10 +409,18 @@ def run_case(case, ctx):
                 aid = a0.attrs["ID"]
                 b = xm.evilize(d0.standalone(a0), new_id=aid + "b", keep_sig=False, tweak=False)
                 c = xm.evilize(d0.standalone(a0), new_id=aid + "c", keep_sig=False)
-                txt = d0.insert_after(a0, b + c).text()
-                txt = xk.sign_element(txt, xk.SAML, "Assertion", aid + "b", fed.key(0)[0], "rsa-sha256", fed.cert_body(0))
-                txt = xk.sign_element(txt, xk.SAML, "Assertion", aid + "c", fed.key(0 if case["msg"] == "valid" else 9)[0], "rsa-sha256",
-                                      fed.cert_body(0 if case["msg"] == "valid" else 9))
+                if case["msg"] == "tampered-same-id":
+                    # the second encrypted assertion is the first one edited after signing: same ID, the genuine Signature copied along
+                    t1 = xk.sign_element(d0.insert_after(a0, b).text(), xk.SAML, "Assertion", aid + "b", fed.key(0)[0], "rsa-sha256", fed.cert_body(0))
+                    d1 = xk.Doc(t1)
+                    b_signed = [n for n in d1.find(xk.SAML, "Assertion") if n.attrs.get("ID") == aid + "b"][0]
+                    c2 = xm.evilize(d1.standalone(b_signed), new_id=None, keep_sig=True)
+                    txt = d1.insert_after(b_signed, c2).text()
+                else:
+                    txt = d0.insert_after(a0, b + c).text()
+                    txt = xk.sign_element(txt, xk.SAML, "Assertion", aid + "b", fed.key(0)[0], "rsa-sha256", fed.cert_body(0))
+                    txt = xk.sign_element(txt, xk.SAML, "Assertion", aid + "c", fed.key(0 if case["msg"] == "valid" else 9)[0], "rsa-sha256",
+                                          fed.cert_body(0 if case["msg"] == "valid" else 9))
                 xml = xk.encrypt_assertions(xk.encrypt_assertions(txt, fed.key(2)[1], which=[2]), fed.key(2)[1], which=[1])     # A stays plain
                 dchk = xk.Doc(xml)
                 if len([c_ for c_ in dchk.root.children if c_.tag == (xk.SAML, "Assertion")]) != 1 or len(dchk.find(xk.SAML, "EncryptedAssertion")) != 2:
@@ -436,8 +444,10 @@ def run_case(case, ctx):
         if site == "decrypt-then-verify-several-encrypted":
             # the plain assertion may legitimately give an identity; what matters is that the outsider's content never does
             i_ = fed.identity_of(resp) if resp is not None else {}
-            leaked = "attacker-value" in repr(i_.get("ava")) or any(str(getattr(a_, "id", "")).endswith("c") for a_ in (getattr(resp, "assertions", None) or []))
-            if leaked and case["msg"] == "tampered":
+            # (what the SP took over: the assertions it keeps - an attribute of the same name in a later assertion may hide the value in ava)
+            leaked = "attacker-value" in repr(i_.get("ava")) or any(str(getattr(a_, "id", "")).endswith("c") or "attacker-value" in ("%s" % a_)
+                                                                     for a_ in (getattr(resp, "assertions", None) or []))
+            if leaked and case["msg"].startswith("tampered"):
                 viol.append({"key": "C20/tampered-assertion-accepted-after-decryption-fault", "what": desc + ": identity %r, events %r" % (
                     i_.get("ava"), [monitors.slim(e) for e in evs][:8])})
             return {"outcome": outcome, "nontrivial": injected > 0, "violations": viol,
